@@ -116,6 +116,10 @@ func runLedgerCases(t *testing.T, st *stats, prop string, r lmRule) {
 			plan := c07Plan{Region: rapid.IntRange(5, 40).Draw(rt, "region"), Extra: rapid.IntRange(0, 40).Draw(rt, "extra"),
 				StaleTip: rapid.Bool().Draw(rt, "stale"), FollowUps: rapid.IntRange(3, 12).Draw(rt, "followUps"), Rogue: true,
 				Second: rapid.IntRange(0, 2).Draw(rt, "second") == 0}
+			if prop == "C01" {
+				// C01 is about overdrafts: most of its truncation cases carry the late overdrawing vertex
+				plan.StaleTip, plan.StaleOverdraw = rapid.IntRange(0, 3).Draw(rt, "stale3of4") > 0, true
+			}
 			if prop == "C02" {
 				// C02's premise: no rogue or trusted sealers; conservation is judged after every observation
 				plan.Rogue, plan.StaleTip, plan.Second = false, false, rapid.Bool().Draw(rt, "second2")
@@ -176,7 +180,15 @@ func trimLog(log []string, n int) []string {
 }
 
 func TestC01(t *testing.T) { runLedgerProperty(t, "C01") }
-func TestC02(t *testing.T) { runLedgerProperty(t, "C02") }
+func TestC02(t *testing.T) {
+	r := lmRules["C02"]
+	st := newStats(t, "C02", r.rule+"; plus, in every third process, one truncation of a ledger with supply 2^64-2 of which almost everything changes hands once (checkpointed funds and reported balances must equal the big-integer net flows)")
+	sim.Chdir(workDir(t))
+	if shard()%3 == 1 {
+		t.Run("big-turnover", func(t *testing.T) { c07BigTurnover(t, st) })
+	}
+	t.Run("histories", func(t *testing.T) { runLedgerCases(t, st, "C02", r) })
+}
 func TestC03(t *testing.T) { runLedgerProperty(t, "C03") }
 func TestC06(t *testing.T) {
 	r := lmRules["C06"]
